@@ -21,8 +21,8 @@ EXPLANATION = (
 RULE_TEXT = 'one obligation per return form, key function, call site, post-processing step and counted reference kind'
 ASSUMPTIONS = ['topological correctness for arbitrary acyclic graphs is not decided (a per-table counter cannot order chains of length 3 whatever its direction)',
                'a future rewrite as a real topological sort is reported as ANALYSIS-ERROR (unrecognised shape) for the direction rule, never as a violation']
-ENGINES = ['pyindex', 'paths']
-TECHNIQUE = 'static analysis (ast): return-form and dataflow rules on reorder_tables_for_sql and render_db; dispatch-table evaluation of the counted side per reference kind against the sibling FOREIGN KEY dispatch'
+ENGINES = ['pyindex', 'paths', 'peval']
+TECHNIQUE = 'static analysis (ast): return-form and dataflow rules on reorder_tables_for_sql and render_db; dispatch-table evaluation of the counted side per reference kind against the sibling FOREIGN KEY dispatch; partial evaluation per kind; counting idioms (dict, Counter, generators) canonicalised before reading'
 
 UTILS = 'pydbml.renderer.sql.default.utils'
 RENDERER = 'pydbml.renderer.sql.default.renderer'
